@@ -1301,7 +1301,7 @@ def shrink_filt(case):
 def streams(tier):
     return [
         Stream(name="ops", imports="From Viv Require Import Common Artifact.", check="check_ops",
-               gen=gen_ops_quick if tier == "quick" else gen_ops_thorough, run=run_ops, n_quick=48, n_thorough=260,
+               gen=gen_ops_quick if tier == "quick" else gen_ops_thorough, run=run_ops, n_quick=48, n_thorough=180,
                corpus=corpus_ops, shrink=shrink_ops, finding_of=finding_of_ops,
                doc="operation sequences on real HDF files, observed after every operation"),
         Stream(name="filt", imports="From Viv Require Import Common Artifact.", check="check_filt", gen=gen_filt,
